@@ -24,7 +24,7 @@ type CrashSpec struct {
 	Init      func(w *World)
 	Ops       []Op
 	Histories [][]int
-	ModelJSON func(w *World) string         // serialise the model after an operation
+	ModelJSON func(w *World) string // serialise the model after an operation
 	Recover   func(w *World, before, after string, interrupted string) []Violation
 }
 
@@ -48,21 +48,21 @@ func RegisterCrash(c *CrashCheck) {
 }
 
 type crashArg struct {
-	ID   string `json:"id"`
-	Tier string `json:"tier"`
-	Spec int    `json:"spec"`
-	Hist int    `json:"hist"`
-	Only []int  `json:"only,omitempty"` // replay: [k, cut]
-	Verbose bool `json:"verbose,omitempty"`
+	ID      string `json:"id"`
+	Tier    string `json:"tier"`
+	Spec    int    `json:"spec"`
+	Hist    int    `json:"hist"`
+	Only    []int  `json:"only,omitempty"` // replay: [k, cut]
+	Verbose bool   `json:"verbose,omitempty"`
 }
 
 type crashOut struct {
-	Points    int         `json:"points"`    // mutating calls of the history
-	Images    int         `json:"images"`    // crash images examined
-	Distinct  int         `json:"distinct"`  // distinct recovered states (tree hashes)
-	Viol      []Violation `json:"viol,omitempty"`
-	Sample    []string    `json:"sample,omitempty"`
-	Trace     []string    `json:"trace,omitempty"`
+	Points   int         `json:"points"`   // mutating calls of the history
+	Images   int         `json:"images"`   // crash images examined
+	Distinct int         `json:"distinct"` // distinct recovered states (tree hashes)
+	Viol     []Violation `json:"viol,omitempty"`
+	Sample   []string    `json:"sample,omitempty"`
+	Trace    []string    `json:"trace,omitempty"`
 }
 
 var crashSpecCache = map[string][]*CrashSpec{}
